@@ -75,8 +75,9 @@ def claims(TRUST):
             "implementation from the allowed sets, at most one proxy backend (counted over all five), http_address and (when enabled) grpc_address either a unix:// path that is not empty or accepted by net.SplitHostPort, HTTP and gRPC TCP "
             "ports different, TLS certificate and key given together, client CA only with certificate and key, allow_unauthenticated_reads only with an authentication mechanism, both blob limits positive, the remote asset API only with "
             "gRPC enabled, log settings from the allowed sets - for every Config value (858 obligations over all return paths).",
-            TRUST + "net.SplitHostPort is uninterpreted (splitPort / splitOK). NOT decided: the 'flags, environment and YAML agree' half (urfave/cli and yaml.v3 are library code whose parsing cannot be brought under contract here), "
-            "defaults, the deprecated host/port forms, and that main() refuses to start when Get returns an error.",
+            TRUST + "net.SplitHostPort is uninterpreted (splitPort / splitOK); the values urfave/cli reports for a flag name are uninterpreted (flagStr, flagInt, flagInt64, flagBool, flagDur), as are net.JoinHostPort and strconv.Itoa. "
+            "NOT decided: the YAML side of 'flags, environment and YAML agree' (yaml.v3 unmarshalling by struct tags and the post-processing in newFromYaml are not under contract, so agreement is shown only as far as "
+            "'the flag named like the YAML key reaches the Config field tagged with that key'), how urfave/cli maps argv and environment variables to flag values, flag defaults (utils/flags), and that main() refuses to start when Get returns an error.",
             "contract-based deductive verification: postconditions of the validator written from the property's list of refused set-ups"),
         "C20": (
             "Deductive proof that what this build writes and reads is the published v2 layout: header.write emits exactly seven little-endian fields in the published order and widths (magic 0x184D2A50 as uint32, frame size "
@@ -114,5 +115,8 @@ addenda = {
            "built from the htpasswd secrets and the same option whenever an htpasswd file is configured.",
     "C18": "Added: GetCapabilities advertises exactly the configured limit; SpliceBlob refuses sizes above it before anything is stored; the HTTP handler refuses CAS/raw uploads above it; startGrpcServer hands the configured max_blob_size to the gRPC server; main.run passes max_blob_size and max_proxy_blob_size, unswapped, to disk.WithMaxBlobSize / WithProxyMaxBlobSize, whose function literals install exactly "
            "the given positive value and refuse others.",
-    "C19": "Added: the disk options refuse non-positive blob limits and storage modes other than the two published ones, and main.run hands dir, storage mode and zstd implementation to the cache as configured.",
+    "C19": "Added: the disk options refuse non-positive blob limits and storage modes other than the two published ones, and main.run hands dir, storage mode and zstd implementation to the cache as configured. "
+           "Added (flag front end): config.get passes to every one of the 35 parameters of newFromArgs the urfave/cli value of the flag named like the corresponding YAML key (call-site obligations; http_address / grpc_address / profile_address "
+           "fall back to the deprecated host+port forms exactly when empty, grpc and profiling stay off for non-positive ports, 'none' disables profiling; the s3, gcs, azblob, ldap, http_proxy and grpc_proxy sections are built exactly when "
+           "their key flag is non-empty and their fields come from the flags of their names), and newFromArgs stores every parameter in the Config field of its name, calls validateConfig on that struct and returns no Config on error.",
 }
